@@ -221,6 +221,17 @@ DurLawsClause(m, ev) ==
      ELSE IF ~fr /\ \E i, j \in 1..Len(ev.vals) : DurEq(ev.vals[i][1], ev.vals[j][1]) /\ ev.vals[i][2] # ev.vals[j][2] THEN "equal-values-hash-differently"
      ELSE "ok"
 
+\* Beyond the listed properties: the remaining Duration operations (//, abs, to_weeks, bool) against the stored-form
+\* model of ImplDur.tla; integer components only.  All clauses are ext: (reported, never an alarm).
+ID == INSTANCE ImplDur WITH EqIgnoresMonthSign <- FALSE, AddDropsMonthsOnMixedSigns <- FALSE
+DurExtClause(ev) ==
+  IF ~ev.ok THEN "ext:raised-" \o ev.cls
+  ELSE IF ~ID!Same8(ev.fd, ID!IFloorDiv(ev.a, ev.n)) THEN "ext:floordiv"
+  ELSE IF ~ID!Same8(ev.ab, ID!IAbs(ev.a)) THEN "ext:abs"
+  ELSE IF ev.hastw /\ ~ID!Same8(ev.tw, ID!IToWeeks(ev.a)) THEN "ext:to_weeks"
+  ELSE IF ev.bl # ID!IBool(ev.a) THEN "ext:bool"
+  ELSE "ok"
+
 \* ---------------------------------------------------------------------- C12 / C13 / C14: recurrences
 \* inp = [fmt, n (0 = unbounded), a (anchor: the given start, or the given end for notation 4), s (second point,
 \*        notation 1), d (interval, notations 3 and 4), r (projection of the constructed object)]
@@ -726,6 +737,7 @@ Clause(ev) ==
     [] ev.op = "CliRec"   -> CliRecClause(ev)
     [] ev.op = "ParseTrunc" -> ParseTruncClause(ev)
     [] ev.op = "DurOp1"   -> DurOp1Clause(ev)
+    [] ev.op = "DurExt"   -> DurExtClause(ev)
     [] ev.op = "Cmp1"     -> Cmp1Clause(mode, ev)
     [] ev.op = "SuiteEnd" -> "ok"
     [] ev.op = "Raised"   -> "raised-" \o ev.cls
